@@ -294,7 +294,16 @@ func (s *Searcher) Fetch() (*iqr.IQR, error) {
 		// InitProgressForRRCCmd() initializes the progress with the correct
 		// total records.
 		if s.qsrs == nil || !s.didFirstFetch {
-			err := s.initializeQSRs()
+			var err error
+			if s.qsrs != nil && s.sortIndexState.forceNormalSearch {
+				// This is the subsearcher for the segments that lack the sort
+				// index: it was given exactly those segments. Reloading all
+				// QSRs here would search the sort-indexed segments a second
+				// time and return every one of their records twice.
+				err = s.sortQSRs()
+			} else {
+				err = s.initializeQSRs()
+			}
 			if err != nil {
 				s.getBlocksLock.Unlock()
 				return nil, utils.TeeErrorf("qid=%v, searcher.Fetch: failed to get and set QSRs: %v", s.qid, err)
@@ -1033,6 +1042,12 @@ func (s *Searcher) initializeQSRs() error {
 
 	s.qsrs = qsrs
 
+	return s.sortQSRs()
+}
+
+func (s *Searcher) sortQSRs() error {
+	qsrs := s.qsrs
+
 	switch s.sortMode {
 	case anyOrder:
 		return nil
@@ -1051,7 +1066,7 @@ func (s *Searcher) initializeQSRs() error {
 			return qsrs[i].GetSegKey() < qsrs[j].GetSegKey()
 		})
 	default:
-		return fmt.Errorf("initializeQSRs: invalid sort mode: %v", s.sortMode)
+		return fmt.Errorf("sortQSRs: invalid sort mode: %v", s.sortMode)
 	}
 
 	return nil
